@@ -213,6 +213,9 @@ def pattern_shape():
         # whitespace control can be requested on EVERY opening delimiter, also the one of an end tag
         # inside a block-like pattern ({%- enddoc %}, {%- endraw %}): each opening placeholder in a rule
         # pattern is directly followed by an optional hyphen (the comment rules have none by design)
+        closes = [m_.start() for m_ in re.finditer(r"\{(tag_e|stmt_e)\}", text)]
+        bare_c = [text[max(0, b - 14):b + 8] for b in closes if not (text[max(0, b - 2):b] == "-?" or re.search(r"\(\?P<\w+>-\?\)$", text[:b]))]
+        obs.append(flow.ob(f"{name}:every-closing-delimiter-may-carry-a-hyphen", not bare_c, f"closing delimiters without an optional hyphen: {bare_c}", replay_schema="code", replay_extra={"code": REPLAY_OPEN_HYPHEN}))
         opens = [m_.end() for m_ in re.finditer(r"\{(tag_s|stmt_s)\}", text)]
         bare = [text[max(0, e - 8):e + 12] for e in opens if not (text[e:e + 2] == "-?" or text[e:e + 10].startswith("(?P<") and "-?)" in text[e:e + 16])]
         obs.append(flow.ob(f"{name}:every-opening-delimiter-may-carry-a-hyphen", not bare, f"opening delimiters without an optional hyphen: {bare}", replay_schema="code", replay_extra={"code": REPLAY_OPEN_HYPHEN}))
@@ -255,7 +258,7 @@ def run(m):
     env = Environment()
     bad = []
     for src, want in (("A {% doc %}d{%- enddoc %} B {% doc %}d{% enddoc %} C", "A  B  C"), ("A {% raw %} r {%- endraw %} B", "A  r  B"), ("a {%- doc -%} x {%- enddoc -%} b", "ab"),
-                      ("A {% doc %}{{ unclosed {%- enddoc %}B", "A B")):
+                      ("A {% doc %}{{ unclosed {%- enddoc %}B", "A B"), ("A{% doc -%} {% if user %} {% enddoc %}B", "AB"), ("A {%- raw -%} {{ x }} {%- endraw -%} B", "A {{ x }} B")):
         try:
             got = env.from_string(src).render()
         except Exception as e:
